@@ -362,10 +362,30 @@ func (g *Gen) typeRef(s *Scope) *TypeRef {
 			}
 			return &TypeRef{Name: bad, Scope: s}
 		}
-		switch g.pick(3) {
-		case 1:
+		// a typedef that exists, behind the prefix its module declares for itself, in a file
+		// that imports that module under another prefix and binds the declared one to
+		// nothing: the prefix is unknown here, whatever it means elsewhere
+		unbound := ""
+		for _, im := range s.File.Imports {
+			own := im.Mod.Prefix
+			bound := own == s.File.Prefix || im.Prefix == own || len(im.Mod.Body.Typedefs) == 0
+			for _, other := range s.File.Imports {
+				bound = bound || other.Prefix == own
+			}
+			if s.File.Sub && s.File.Owner != nil {
+				bound = bound || s.File.Owner.Prefix == own
+			}
+			if !bound {
+				unbound = own + ":" + im.Mod.Body.Typedefs[g.pick(len(im.Mod.Body.Typedefs))].Name
+				break
+			}
+		}
+		switch x := g.pick(3); {
+		case unbound != "" && g.pick(3) > 0:
+			bad = unbound
+		case x == 1:
 			bad = s.File.Prefix + ":" + bad
-		case 2:
+		case x == 2:
 			bad = "zz" + g.name("u") + ":" + bad
 		}
 		return &TypeRef{Name: bad, Scope: s}
@@ -385,6 +405,15 @@ func (g *Gen) typeRef(s *Scope) *TypeRef {
 				for q := 1 + g.pick(2); q > 0; q-- {
 					t.Posix = append(t.Posix, "^"+g.name("px")+"$")
 				}
+				s.File.OCX = true
+			}
+			// the two lists are separate: a pattern that repeats the text of a posix-pattern
+			// stated further up the chain is a pattern of its own, and the other way round
+			if g.Posix && len(k.Posix) > 0 && g.pick(2) == 0 {
+				t.Patterns = append(t.Patterns, k.Posix[g.pick(len(k.Posix))])
+			}
+			if g.Posix && len(k.Patterns) > 0 && g.pick(4) == 0 {
+				t.Posix = append(t.Posix, k.Patterns[g.pick(len(k.Patterns))])
 				s.File.OCX = true
 			}
 		}
@@ -893,6 +922,11 @@ func (g *Gen) Build() {
 		if len(tr.Errs) > 0 {
 			f.Augments = f.Augments[:len(f.Augments)-1]
 		}
+	}
+	// include statements may stand in any order (a submodule that includes another one may
+	// well be named before it)
+	for _, m := range g.Mods {
+		g.R.Shuffle(len(m.Includes), func(a, b int) { m.Includes[a], m.Includes[b] = m.Includes[b], m.Includes[a] })
 	}
 }
 
